@@ -13,7 +13,7 @@ use std::collections::HashMap;
 
 pub const IS_MODEL: bool = false;
 pub const MAXA: usize = 64;
-pub const MAXF: usize = 6;
+pub const MAXF: usize = 70;
 
 /// one transmission attempt as the recording kernel logs it
 #[derive(Clone, Copy)]
